@@ -34,6 +34,7 @@ type Complex complex128
 type Str struct {
 	S   string
 	Sym []*Term
+	Lit bool // result of regexp.QuoteMeta on symbolic text: S/Sym hold the *unquoted* text
 }
 
 // Obj is a heap object: a flat array of scalar slots.
